@@ -28,31 +28,31 @@ const (
 func (r Result) String() string { return [...]string{"unsat", "sat", "unknown"}[r] }
 
 type Solver struct {
-	ctx       *Ctx
-	backend   string
-	cmd       *exec.Cmd
-	in        io.WriteCloser
-	out       *bufio.Reader
-	emitted   map[int]bool
-	declVars  map[string]bool
-	declUFs   map[string]bool
-	timeoutMs int
-	Queries   int
-	Seconds   float64
-	Unknowns  int
-	Errors    int
-	log       *os.File
-	dead      bool
-	vsets     map[int]bitset
-	vidx      map[string]int
-	fastMs    int
-	noEscalate bool
-	Escalations int
-	fastFails int
+	ctx           *Ctx
+	backend       string
+	cmd           *exec.Cmd
+	in            io.WriteCloser
+	out           *bufio.Reader
+	emitted       map[int]bool
+	declVars      map[string]bool
+	declUFs       map[string]bool
+	timeoutMs     int
+	Queries       int
+	Seconds       float64
+	Unknowns      int
+	Errors        int
+	log           *os.File
+	dead          bool
+	vsets         map[int]bitset
+	vidx          map[string]int
+	fastMs        int
+	noEscalate    bool
+	Escalations   int
+	fastFails     int
 	lastConeBytes int
-	nDump int
-	Where     string
-	scratch   string
+	nDump         int
+	Where         string
+	scratch       string
 }
 
 func backendArgs(backend string, timeoutMs int) (string, []string) {
